@@ -1,5 +1,7 @@
 import SSV.Proofs.StreamRequest
 import SSV.Proofs.StreamStickyBase
+import SSV.Proofs.StreamTimeout
+import SSV.Proofs.StreamSticky
 import SSV.Model.StreamToy
 /-
 C01 — Shadowsocks 2022 TCP tunnel delivers the exact byte stream both ways.
@@ -287,11 +289,51 @@ theorem stream_roundtrip_conn (C : Crypto) (hC : AeadOK C) (k : Bytes) (n0 : Nat
     (segs : List Bytes)
     (hseg : segs.flatten = (Writer.emit C ⟨k, n0⟩ (calls.flatMap WCall.chunks)).1.flatten)
     (ops : List ROp) :
-    SReader.run C ⟨⟨k, n0, [], segs.flatten⟩, none⟩ ops = Reader.run C ⟨k, n0, [], segs.flatten⟩ ops ∧
-    Delivers (calls.map WCall.data).flatten (SReader.run C ⟨⟨k, n0, [], segs.flatten⟩, none⟩ ops) := by
+    SReader.run C ⟨⟨k, n0, [], segs.flatten⟩, none, []⟩ ops = Reader.run C ⟨k, n0, [], segs.flatten⟩ ops ∧
+    Delivers (calls.map WCall.data).flatten (SReader.run C ⟨⟨k, n0, [], segs.flatten⟩, none, []⟩ ops) := by
   have h := stream_roundtrip C hC k n0 calls segs hseg ops
   have e := srun_eq_run C ops ⟨k, n0, [], segs.flatten⟩ h.1
   exact ⟨e, by rw [e]; exact h.2⟩
+
+
+/-- **transient_timeout_at_chunk_boundary**: the transport reports read deadlines (a `Read` of the
+transport returning a timeout error with 0 bytes) at chunk boundaries — any number of them, at any
+boundaries, several at the same boundary (empty groups): the stream is the concatenation of the
+chunk groups `g0 :: gs`, a deadline fires after each group. Whatever schedule the caller runs — `Read`
+with any buffer sizes, `WriteTo`, tunnel copy, in any mixture, calling again after every reported
+deadline — the calls hand over consecutive pieces of exactly the written bytes, in order, each byte
+once; the only errors reported are the deadlines (one per scripted deadline) and end of stream, the
+latter only after everything; the conn's sticky error is never set. A copy call runs until the end
+of the stream or the next deadline. Depends on the regenerated facts `readErrorsSticky` and
+`boundaryTimeoutRetryable` (the sticky read error is set only when bytes of an unfinished chunk were
+consumed or a chunk failed to authenticate). -/
+theorem transient_timeout_at_chunk_boundary (C : Crypto) (hC : AeadOK C) (k : Bytes) (n0 : Nat)
+    (g0 : List Bytes) (gs : List (List Bytes)) (hv0 : ValidChunks g0) (hv : ∀ g ∈ gs, ValidChunks g) (ops : List ROp) :
+    let s : SReader := { r := ⟨k, n0, [], encodeChunks C k n0 g0⟩, later := encodeGroups C k (n0 + 2 * g0.length) gs }
+    DeliversT (g0.flatten ++ (gs.map List.flatten).flatten) (s.run C ops) ∧ (s.after C ops).err = none ∧
+    (∀ op, (∀ n, op ≠ .read n) → (s.step C op).1.sawEnd = true ∨ (s.step C op).1.err = some .timeout) := by
+  intro s
+  have hs : TSync C s g0 gs := ⟨rfl, ⟨rfl, hv0⟩, rfl, hv⟩
+  obtain ⟨h1, h2⟩ := trun_ok hC ops s g0 gs hs
+  refine ⟨by simpa [pendingT, pending, s] using h1, h2, fun op hop => ?_⟩
+  obtain ⟨_, _, h⟩ := tstep_ok hC s g0 gs hs op
+  exact h.copy hop
+
+/-- **midchunk_timeout_is_permanent** (the negative): the deadline fires after `k > 0` bytes of a
+chunk (the stretch `q` is a non-empty proper prefix of the chunk's encoding): the call hands over
+nothing and reports the deadline, and every later call of any kind fails with it and hands over
+nothing — cipher and stream are out of step, nothing may be authenticated in the chunk's place. -/
+theorem midchunk_timeout_is_permanent (C : Crypto) (hC : AeadOK C) (s : SReader) (p q q2 nx : Bytes) (rest : List Bytes)
+    (herr : s.err = none) (hleft : s.r.left = []) (hwire : s.r.wire = q) (hlater : s.later = nx :: rest)
+    (h0 : p.length ≠ 0) (hmax : p.length ≤ streamMaxPayloadSize)
+    (hq : sealChunk C s.r.key s.r.nonce p = q ++ q2) (hq1 : q ≠ []) (hq2 : q2 ≠ []) (op : ROp) (ops : List ROp) :
+    (s.step C op).1.bytes = [] ∧ (s.step C op).1.err = some .timeout ∧
+    SReader.run C (s.step C op).2 ops = ops.map (fun op => failedOut op .timeout) := by
+  obtain ⟨h1, h2, h3⟩ := midchunk_timeout hC s p q q2 nx rest herr hleft hwire hlater h0 hmax hq hq1 hq2 op
+  refine ⟨h1, h2, ?_⟩
+  have := failed_run C (s.step C op).2.r .timeout (s.step C op).2.later ops
+  rw [← h3] at this
+  exact this
 
 /-- the splitting loops of `Write` / `ReadFrom` lose nothing and respect the chunk limit -/
 theorem writer_chunks_valid (calls : List WCall) :
@@ -317,3 +359,5 @@ end SSV.C01
 #print axioms SSV.C01.p_first
 #print axioms SSV.C01.request_stable
 #print axioms SSV.C01.stream_roundtrip_conn
+#print axioms SSV.C01.transient_timeout_at_chunk_boundary
+#print axioms SSV.C01.midchunk_timeout_is_permanent
